@@ -391,10 +391,10 @@ def addTag (tags : List String) (tag : String) : List String × Nat :=
   | some i => (tags, i)
   | none => (tags ++ [tag], tags.length)
 
-/-- `Interface::get_coordinates`: `p * PI / 180.0` in spherical worlds (note: `(x*π)/180`, unlike `dtr`) -/
+/-- `Interface::get_coordinates`: `p * PI / 180.0` in spherical worlds: `(p*π) * (1/180)` by `Point::operator/` (unlike `dtr`) -/
 def getCoordinates (c : Cur) (sph : Bool) : Except Err (List (P2 R)) := do
   let pts ← c.getPoint2Vec "coordinates"
-  if sph then return pts.map (fun (p : P2 R) => (⟨p.x * Scalar.pi / 180.0, p.y * Scalar.pi / 180.0⟩ : P2 R))
+  if sph then return pts.map (fun (p : P2 R) => P2.sdiv (⟨p.x * Scalar.pi, p.y * Scalar.pi⟩ : P2 R) 180.0)
   else return pts
 
 def parseArea (ctx : Ctx R) (kind : Nat) (defaultTag : String) (c : Cur) (tags : List String) : PM R (AreaFeature R × List String) := do
@@ -404,10 +404,14 @@ def parseArea (ctx : Ctx R) (kind : Nat) (defaultTag : String) (c : Cur) (tags :
   let (tags, ti) := addTag tags (if tag == "" then defaultTag else tag)
   let coords ← pmLift (getCoordinates c sph)
   let rng ← c.getRange sph coords
+  -- parse order (it fixes the construction order of the depth surfaces): continental plate parses
+  -- temperature, velocity, composition, grains; oceanic plate and mantle layer parse temperature, composition, grains, velocity.
   let temps ← (← pmLift (c.pluginList "temperature models")).mapM (fun (m, cc) => parseAreaTemp ctx kind coords m cc)
-  let vels ← (← pmLift (c.pluginList "velocity models")).mapM (fun (m, cc) => parseAreaVel sph kind coords m cc)
+  let velList ← pmLift (c.pluginList "velocity models")
+  let velsFirst ← (if kind == 0 then velList.mapM (fun (m, cc) => parseAreaVel sph kind coords m cc) else pure [])
   let comps ← (← pmLift (c.pluginList "composition models")).mapM (fun (m, cc) => parseAreaComp sph coords m cc)
   let grains ← (← pmLift (c.pluginList "grains models")).mapM (fun (m, cc) => parseAreaGrains sph coords m cc)
+  let vels ← (if kind == 0 then pure velsFirst else velList.mapM (fun (m, cc) => parseAreaVel sph kind coords m cc))
   return ({ name := name, tag := ti, coords := coords, rng := rng,
             models := { temps := temps, vels := vels, comps := comps, grains := grains } }, tags)
 
